@@ -5,7 +5,7 @@ ID = 'C12'
 PKG = '.'
 HARNESS_FILES = ['pkg/frame/zz_verif_common.go', 'pkg/frame/zz_verif_dialect.go', 'pkg/frame/zz_verif_c02.go',
                  'pkg/frame/zz_verif_c05.go', 'pkg/frame/zz_verif_c06.go', 'pkg/frame/zz_verif_export.go',
-                 'pkg/frame/zz_verif_msgs.go', 'zz_verif_node.go', 'zz_verif_c10.go', 'zz_verif_life.go', 'zz_verif_c12.go']
+                 'pkg/frame/zz_verif_msgs.go', 'zz_verif_node.go', 'zz_verif_c10.go', 'zz_verif_c11.go', 'zz_verif_life.go', 'zz_verif_c12.go']
 KERNEL_PKGS = ['.']
 ROOTS = [r'v3\.verifHarness_C12']
 ALLOW = 'bufio,io,encoding/binary,errors,bytes,time'
